@@ -331,7 +331,13 @@ func (multi *MultiEpoch) handleGetBlock(ctx context.Context, conn *requestContex
 						}
 						// if the commission field is a string, convert it to a float
 						if asString, ok := rewardAsMap["commission"].(string); ok {
-							rewardAsMap["commission"] = asFloat(asString)
+							if f, ok := asFloatOK(asString); ok {
+								rewardAsMap["commission"] = f
+							} else {
+								// not a number (the archive stores it as a string; empty for non-voting rewards):
+								// no commission, rather than a panic that ends the process
+								rewardAsMap["commission"] = nil
+							}
 						}
 						// if no lamports field, add it and set it to 0
 						if _, ok := rewardAsMap["lamports"]; !ok {
@@ -517,6 +523,12 @@ func (multi *MultiEpoch) handleGetBlock(ctx context.Context, conn *requestContex
 		return nil, fmt.Errorf("failed to reply: %w", err)
 	}
 	return nil, nil
+}
+
+// asFloatOK is asFloat without the panic.
+func asFloatOK(s string) (f float64, ok bool) {
+	_, err := fmt.Sscanf(s, "%f", &f)
+	return f, err == nil
 }
 
 func asFloat(s string) float64 {
